@@ -189,6 +189,37 @@ def post_odd(value, result):
 
 X = 'pycel.excellib:'
 num = Union(Int(), Float())
+
+# the two helpers through which CEILING / FLOOR work on the numbers AS WRITTEN (Fraction(repr(x))): in the real-number
+# model of the proofs (A-FLOAT, A-REPR: the shortest rendering of x denotes x) they are plain division / multiplication;
+# that they are decimal-exact in binary floating point is what the stand-in checks on decimal grids
+
+
+def post_decimal_ratio(number, significance, result):
+    return result == number / significance
+
+
+def pre_decimal_ratio(number, significance):
+    return significance != 0
+
+
+def post_decimal_multiple(significance, count, result):
+    return result == significance * count and implies(isinstance(significance, int), isinstance(result, int))
+
+
+def pre_decimal_multiple(significance, count):
+    return True
+
+
+RATIO = Contract(X + '_decimal_ratio', 'C19', params=dict(number=num, significance=num), requires=[pre_decimal_ratio],
+                 ensures=[post_decimal_ratio], returns=Float(), klass='BOUNDED',
+                 notes='Fraction(repr(x)) / Fraction(repr(s)): exact rational of the shortest renderings (A-REPR); a real '
+                       'in the proofs; decimal grids in the stand-in')
+MULTIPLE = Contract(X + '_decimal_multiple', 'C19', params=dict(significance=num, count=Int()),
+                    requires=[pre_decimal_multiple], ensures=[post_decimal_multiple], returns=num, klass='BOUNDED',
+                    notes='float(Fraction(repr(s)) * k): the float nearest to the decimal product (A-REPR)')
+ASSUMED = [RATIO, MULTIPLE]
+HELPERS = [X + '_decimal_ratio', X + '_decimal_multiple']
 digits = Union(*[Const(d) for d in range(-4, 7)])
 
 CONTRACTS = [
@@ -203,19 +234,19 @@ CONTRACTS = [
     Contract(X + 'int_', 'C19', params=dict(value1=num), requires=[pre_int], ensures=[post_int]),
     Contract(X + 'mod', 'C19', params=dict(number=num, divisor=num), requires=[pre_mod], ensures=[post_mod]),
     Contract(X + 'ceiling', 'C19', params=dict(number=num, significance=num), requires=[pre2],
-             ensures=[post_ceiling]),
+             ensures=[post_ceiling], modular=HELPERS),
     Contract(X + 'floor', 'C19', params=dict(number=num, significance=num), requires=[pre2],
-             ensures=[post_floor]),
+             ensures=[post_floor], modular=HELPERS),
     Contract(X + 'ceiling_math', 'C19',
              params=dict(number=num, significance=num, mode=Union(Const(0), Const(1), Int())),
-             requires=[pre3], ensures=[post_ceiling_math]),
+             requires=[pre3], ensures=[post_ceiling_math], modular=HELPERS),
     Contract(X + 'floor_math', 'C19',
              params=dict(number=num, significance=num, mode=Union(Const(0), Const(1), Int())),
-             requires=[pre3], ensures=[post_floor_math]),
+             requires=[pre3], ensures=[post_floor_math], modular=HELPERS),
     Contract(X + 'ceiling_precise', 'C19', params=dict(number=num, significance=num), requires=[pre2],
-             ensures=[post_ceiling_precise]),
+             ensures=[post_ceiling_precise], modular=HELPERS),
     Contract(X + 'floor_precise', 'C19', params=dict(number=num, significance=num), requires=[pre2],
-             ensures=[post_floor_precise]),
+             ensures=[post_floor_precise], modular=HELPERS),
     Contract(X + 'even', 'C19', params=dict(value=num), requires=[pre1], ensures=[post_even]),
     Contract(X + 'odd', 'C19', params=dict(value=num), requires=[pre1], ensures=[post_odd]),
 ]
@@ -293,7 +324,8 @@ def bounded(tier, seed, R):
     R.rule = ('decimal grid x = k/10^j (k near ties, near-ties and random, j = 0..6, both signs) x digits -6..6 '
               'for ROUND/ROUNDDOWN/ROUNDUP/TRUNC against the rational oracle; awkward floats (0.1+0.2, 1e15+0.3, '
               '16/17 digit reprs); MOD on decimal and integer pairs in exact rational arithmetic of the binary values; '
-              'CEILING/FLOOR family, INT, EVEN, ODD on dyadic grids (exact float arithmetic)')
+              'CEILING/FLOOR family, INT, EVEN, ODD on dyadic grids (exact float arithmetic) and the CEILING/FLOOR family on decimal grids '
+              '(numbers as written, Fraction(repr(.)) of operands and result)')
     ks = set()
     for base in (0, 1, 2, 5, 15, 25, 45, 125, 995, 1005, 12345, 99995, 100005, 250000, 999999):
         for dlt in (-1, 0, 1):
@@ -362,3 +394,28 @@ def bounded(tier, seed, R):
             for mode in (0, 1, -1):
                 R.guard('ceiling_math/post#0:post_ceiling_math', wrap(post_ceiling_math, X.ceiling_math, mode), w)
                 R.guard('floor_math/post#0:post_floor_math', wrap(post_floor_math, X.floor_math, mode), w)
+    # decimal grids: the numbers AS WRITTEN (0.3 is three tenths): the same clauses over Fraction(repr(.)) of operands and result
+    D = lambda v: F(repr(v)) if isinstance(v, float) else F(v)
+    dsig = [0.1, 0.2, 0.05, 0.25, 0.5, 0.3, 0.01, 1, 2, 3, 0.7]
+    dxs = sorted({k / 10 ** j for k in list(range(0, 60)) + [299, 435, 2999, 4350, 12345] for j in (1, 2)}
+                 | {rnd.randint(0, 10 ** 5) / 100 for _ in range(60 if not thorough else 3000)})
+    for x0 in dxs:
+        for x in (x0, -x0):
+            for s0 in dsig:
+                for s_ in (s0, -s0):
+                    w = {'x': x, 'significance': s_}
+
+                    def dwrap(post, f, *extra):
+                        def chk():
+                            r = f(x, s_, *extra)
+                            if isinstance(r, str):
+                                return post(x, s_, *extra, r)
+                            return post(D(x), D(s_), *extra, D(r))
+                        return chk
+                    R.guard('ceiling/post#0:post_ceiling', dwrap(post_ceiling, X.ceiling), w)
+                    R.guard('floor/post#0:post_floor', dwrap(post_floor, X.floor), w)
+                    R.guard('ceiling_precise/post#0:post_ceiling_precise', dwrap(post_ceiling_precise, X.ceiling_precise), w)
+                    R.guard('floor_precise/post#0:post_floor_precise', dwrap(post_floor_precise, X.floor_precise), w)
+                    for mode in (0, 1):
+                        R.guard('ceiling_math/post#0:post_ceiling_math', dwrap(post_ceiling_math, X.ceiling_math, mode), w)
+                        R.guard('floor_math/post#0:post_floor_math', dwrap(post_floor_math, X.floor_math, mode), w)
